@@ -49,6 +49,12 @@ class CleanPass(FunctionPass):
             if block in predecessors:
                 continue
 
+            # Do not remove when a predecessor already jumps to the
+            # successor, and a phi there selects different values for the two
+            # paths. The phi can only have one value per predecessor.
+            if self.has_phi_conflict(block, predecessors, successors):
+                continue
+
             # Update successor incoming blocks:
             for successor in successors:
                 successor.replace_incoming(block, predecessors)
@@ -64,6 +70,18 @@ class CleanPass(FunctionPass):
             stat += 1
         if stat > 0:
             self.logger.debug("Removed %s empty blocks", stat)
+
+    @staticmethod
+    def has_phi_conflict(block, predecessors, successors):
+        """Test if phis in the successors distinguish block and its preds"""
+        for successor in successors:
+            for phi in successor.phis:
+                for predecessor in predecessors:
+                    if predecessor in phi.inputs and phi.get_value(
+                        predecessor
+                    ) is not phi.get_value(block):
+                        return True
+        return False
 
     def find_single_predecessor_block(self, function):
         """Find a block with a single predecessor"""
@@ -106,12 +124,23 @@ class CleanPass(FunctionPass):
         block1.remove_instruction(last_jump)
         last_jump.delete()
 
+        # Phis in block2 have a single incoming value, use that value:
+        for phi in block2.phis:
+            value = phi.get_value(block1)
+            phi.replace_by(value)
+            phi.del_incoming(block1)
+            block2.remove_instruction(phi)
+
         # Copy all instructions to block1:
         for instruction in block2:
             block1.add_instruction(instruction)
 
-        # Replace incoming info:
+        # Replace incoming info (a block can be successor twice):
+        successors = []
         for successor in block2.successors:
+            if successor not in successors:
+                successors.append(successor)
+        for successor in successors:
             successor.replace_incoming(block2, [block1])
 
         # Remove block from function:
